@@ -224,6 +224,9 @@ def run(ctx):
             case = {"part": "conv", "type": "float", "nullable": ev["nullable"], "isNone": False, "text": text, "via": "opt", "exact": True}
         elif which == 2:  # any text through any type
             text = "".join(rng.choice("01-+_ .eEnulTtrfasyo9x") for _ in range(rng.randint(0, 6)))
+            if rng.random() < 0.3:  # literals with a special meaning to Python's number parsers
+                text = rng.choice(["inf", "-inf", "Infinity", "-Infinity", "nan", "1e999", "-1e999", "1e400", "2.0", "1e3", "0x10", "0b1", "1_000",
+                                   " 12 ", "1e-400", "True", "False", "None", "NULL", "yes", "off", "1.", ".e1"])
             ty = rng.choice(["str", "bool", "int", "float"])
             is_none = rng.random() < 0.1
             via = rng.choice(["opt", "arg"])
